@@ -478,7 +478,12 @@ T2_EPISODES: Dict[str, dict] = {
     "c": dict(owner="A", text="pear cider", days_ago=40, cluster="c2", importance=0.5),
     "d": dict(owner="B", text="apple pie", days_ago=2, cluster="c3", importance=None),  # same vector as a
     "e": dict(owner="world", text="fig jam apple", days_ago=None, cluster=None, importance=1.0),  # no timestamp
+    # owner x cluster leg: for agent A alone cluster c2 (g) ranks first, with B's episode h counted in, c1 would
+    "f": dict(owner="A", text="apple pie pie", days_ago=1, cluster="c1", importance=0.5),
+    "g": dict(owner="A", text="fig tart", days_ago=1, cluster="c2", importance=0.5),
+    "h": dict(owner="B", text="apple fig", days_ago=1, cluster="c1", importance=0.5),
 }
+T2_BASE_EPISODES = ["a", "b", "c", "d", "e"]
 T2_TEXT = "apple fig"
 T2_CACHE_DIAG = {"cache_used", "cache_hits", "cache_misses", "t2.cache_evictions", "t2.cache_bytes"}
 T2_PAR_DIAG = {"t2.task_count", "t2.parallel_workers", "t2.partition_count", "task_count", "parallel_workers", "partition_count"}
@@ -662,7 +667,7 @@ def _t2_worker(chunk, st: Stats):
 
 
 def t2_units(thorough: bool, seed: int):
-    eps = list(T2_EPISODES) if thorough else ["a", "b", "c", "e"]
+    eps = list(T2_BASE_EPISODES) if thorough else ["a", "b", "c", "e"]
     maxlen = 5 if thorough else 4
     mems = [list(p) for r in range(0, maxlen + 1) for p in itertools.permutations(eps, r)]
     tier_lists = TIER_LISTS if thorough else [
@@ -686,6 +691,15 @@ def t2_units(thorough: bool, seed: int):
         for tiers in ([["exact_semantic"], ["archive"], ["cluster_semantic"]] if thorough else [["archive"]]):
             for w in (2, 3, 4):
                 units.append({"kind": "t2", "mem": mem, "tiers": tiers, "k": 2, "m": 1, "w": w, "text": T2_TEXT, "scope": "agent"})
+    # owner x cluster leg: the top-m clusters are those of the memories the asking agent can see, also inside a shard
+    for r in (2, 3):
+        for mem in itertools.permutations(["f", "g", "h"] + (["b"] if thorough else []), r):
+            for scope in ("agent", "world", "any"):
+                for tiers in (["cluster_semantic"], ["cluster_semantic", "archive"]):
+                    for k in (1, 64):
+                        for w in (2, 3):
+                            units.append({"kind": "t2", "mem": list(mem), "tiers": tiers, "k": k, "m": 1, "w": w,
+                                          "text": T2_TEXT, "scope": scope})
     return units
 
 
